@@ -11,7 +11,8 @@ Ev == Traces[tid][l]
 Clause(name, b) == IF b THEN TRUE ELSE PrintT(<<"FAIL", tid, l, name>>) /\ (IOEnv.ALLCLAUSES = "1")
 ConfigEv(e) == /\ Clause("config-first", l = 1)
                /\ ts' = e.ts /\ mode' = e.mode /\ trained' = e.trained
-               /\ UNCHANGED <<ec, pc, xs, trains, objcalls, nreq, lastkind>>
+               /\ xs' = [ i \in 1..e.pre |-> 0 ]        \* a model warm-started from e.pre stored designs: training pairs, but no requests yet
+               /\ UNCHANGED <<ec, pc, trains, objcalls, nreq, lastkind>>
 RequestEv(e) ==
     /\ Clause("no-exception", e.exc = "")
     /\ Request(e.accept)
